@@ -217,6 +217,15 @@ def edited_variants(g, t):
             out.append(("array->scalar", swap(rebuild(c, values={**c.values, k0: np.full(len(v), v[0])}))) if False else
                        ("array->first-element", swap(rebuild(c, values={**c.values, k0: v[0].item()}))))
             out.append(("array-dtype-and-value", swap(rebuild(c, values={**c.values, k0: v.astype(np.float64) + 0.5}))))
+        # integers one apart that round to the SAME double (|v| >= 2**53): an equality that goes through float64 misses the edit
+        for base in r.sample([2**53, -(2**53), 2**60, 2**62, -(2**62), 2**53 + 2 * r.randrange(1, 10**6)], 2):
+            for nm, mk in (("int", int), ("np.int64", np.int64), ("int64-array", lambda x: np.array([x, 7, x], dtype=np.int64))):
+                try:
+                    ta = swap(rebuild(c, values={**c.values, k0: mk(base)}))
+                    tb = swap(rebuild(c, values={**c.values, k0: mk(base + (1 if base > 0 else -1))}))
+                    out.append((f"adjacent-big-integers {nm} {base}", ("pair", ta, tb)))
+                except Exception:  # noqa: BLE001
+                    pass
         out.append(("value->None", swap(rebuild(c, values={**c.values, k0: None if v is not None else 0}))))
         out.append(("field-name", swap(rebuild(c, values={(k + "_x" if k == k0 else k): w for k, w in c.values.items()}))))
         out.append(("field-dropped", swap(rebuild(c, values={k: w for k, w in c.values.items() if k != k0}))))
@@ -429,6 +438,38 @@ def run(ctx):
             tv = Triangle(cells[:pos] + cells[pos + 1:])
             if t == tv or tv == t or (tv <= t) is not True or (t <= tv) is not False:
                 fails.append((f"large: dropping cell {pos} of {len(cells)}: ==/<= wrong", t, tv))
+    # ---- operands produced by OTHER public operations (round 8, composition): a TriangleSlice (triangle_to_slice,
+    # ts[a:b]) or a derived Triangle holding the same cells is the same set of cells, so ==, hash, <=, &, - must all say so
+    from bermuda import TriangleSlice
+    from bermuda.utils import slice_to_triangle, triangle_to_slice
+
+    for i in range(12 if ctx.quick else 120):
+        t, info = g.triangle(n_slices=1, basis=g.r.choice(["cum", "inc"]), n_periods=g.r.randint(1, 4), n_lags=g.r.randint(1, 4))
+        cells = list(t.cells)
+        k = g.r.randint(0, len(cells))
+        derived = [("triangle_to_slice(t)", t, triangle_to_slice(t)), ("TriangleSlice(cells)[:]", t, TriangleSlice(cells)[:]),
+                   (f"TriangleSlice(cells)[:{k}]", Triangle(cells[:k]), TriangleSlice(cells)[:k]),
+                   ("slice_to_triangle(triangle_to_slice(t))", t, slice_to_triangle(triangle_to_slice(t))),
+                   ("t.filter(always)", t, t.filter(lambda c: True)), ("t + Triangle([])", t, t + Triangle([])),
+                   ("t.select(all fields)", t, t.select(list(t.fields))), ("t.slices first value", t, next(iter(t.slices.values()))),
+                   ("t[0:len]", t, t[0:len(t)]), ("t.replace()", t, t.replace())]
+        for name, a, b in derived:
+            ctx.count(evaluations=1, traces=1)
+            ctx.hist("derived-operand:" + type(b).__name__)
+            try:
+                bad = []
+                if not (a == b and b == a) or (a != b) or (b != a):
+                    bad.append("== / != say the operands differ")
+                if hash(a) != hash(b):
+                    bad.append("hashes differ")
+                if set_ops(a, b) != expected_set_ops(a, b) or set_ops(b, a) != expected_set_ops(b, a):
+                    bad.append("set operations disagree with cell ==")
+                if len(a) and ((a & b) != a or len(a - b) != 0 or not (a <= b and b <= a)):
+                    bad.append("&, -, <= disagree with ==")
+            except Exception as ex:  # noqa: BLE001
+                bad = [f"comparison raised {type(ex).__name__}: {ex}"]
+            if bad:
+                fails.append((f"derived operand {name} (same cells, {type(b).__name__} vs {type(a).__name__}): {'; '.join(bad)}", a, b))
     # ---- exhaustive small universe: ==, <=, &, -, isdisjoint on all pairs; transitivity on all triples
     uni_fail = []
     n_uni = 4 if ctx.quick else 12
@@ -519,7 +560,8 @@ Eval vm_compute in failing (concat (map (fun '(i, row) => row_ok i row) (combine
     for what, a, b in (fails + uni_fail)[:4]:
         ctx.violation("impl-violation", what,
                       {"kind": "pair", "what_failed": what, "a": [ct.cell_to_obj(c) for c in a.cells],
-                       "b": [ct.cell_to_obj(c) for c in b.cells]}, found_input=True)
+                       "b": [ct.cell_to_obj(c) for c in b.cells], "a_class": type(a).__name__, "b_class": type(b).__name__},
+                      found_input=True)
     if mism and not ctx.violations:
         ctx.violation("correspondence", "model and implementation disagree on == / <=",
                       {"mismatches": [repr(m) for m in mism[:5]]}, found_input=False)
@@ -528,8 +570,10 @@ Eval vm_compute in failing (concat (map (fun '(i, row) => row_ok i row) (combine
 def replay(ctx, data):
     from bermuda import Triangle
 
-    a = Triangle([ct.cell_from_obj(o) for o in data["a"]])
-    b = Triangle([ct.cell_from_obj(o) for o in data["b"]])
+    import bermuda
+
+    a = getattr(bermuda, data.get("a_class", "Triangle"))([ct.cell_from_obj(o) for o in data["a"]])
+    b = getattr(bermuda, data.get("b_class", "Triangle"))([ct.cell_from_obj(o) for o in data["b"]])
     strict = ct.canon_tri(a) == ct.canon_tri(b)
     print("what failed when recorded:", data.get("what_failed"))
     print("a == b:", a == b, " b == a:", b == a, " len:", len(a), len(b), " strictly identical:", strict)
@@ -540,6 +584,8 @@ def replay(ctx, data):
     print("set ops impl:", {k: (v if isinstance(v, bool) else len(v)) for k, v in set_ops(a, b).items()},
           "expected:", {k: (v if isinstance(v, bool) else len(v)) for k, v in expected_set_ops(a, b).items()})
     bad = set_ops(a, b) != expected_set_ops(a, b)
+    if strict and not (a == b and b == a):
+        bad = True
     if len(a) != len(b) and a == b:
         bad = True
     if a == b:
